@@ -8,7 +8,8 @@
 //   observation: the C02 dispatch observation + ";rpm=0|1|panic"
 //
 // quick tier: random delimited patterns (≤ 6 tokens) × fillings × path variants (plain, other case,
-// extra trailing slash, percent-encoded, arbitrary mutation) × 8 configurations.
+// extra trailing slash, percent-encoded, arbitrary mutation) × 8 configurations. Every 25th pattern
+// (all tiers, all seeds) has 28, 29, 30 or 31 parameters: the boundary of fiber's maxParams = 30.
 // thorough tier: additionally the exhaustive small-scope enumeration of DESIGN §6 C03 (a TEST, not a
 // proof): all token sequences of ≤ 4 tokens over {/, a, -, ., ab/, :x, :y?, *, +} behind a leading
 // "/", × all assignments over {ε, a, b, ab, a-b, a/b, A} × 8 configurations.
@@ -122,9 +123,14 @@ func nparams(ts []tok) int {
 	return n
 }
 
-func okPath(p string) bool {
-	return strings.HasPrefix(p, "/") && !strings.HasPrefix(p, "//") && !strings.ContainsAny(p, "?#") && len(p) <= 100
+func okPathN(p string, lim int) bool {
+	return strings.HasPrefix(p, "/") && !strings.HasPrefix(p, "//") && !strings.ContainsAny(p, "?#") && len(p) <= lim
 }
+
+func okPath(p string) bool { return okPathN(p, 100) }
+
+// manyPathLimit: request paths of the many-parameter stream (28..31 parameters) are longer.
+const manyPathLimit = 600
 
 type job struct {
 	id   string
@@ -232,6 +238,74 @@ func genVals(r *gen.Rand, ts []tok) []string {
 			v = "a"
 		}
 		vals = append(vals, v)
+	}
+	return vals
+}
+
+// ---------------------------------------------------------------------------------------------
+// many-parameter stream: patterns at the boundary of fiber's maxParams (= 30: ctx.go; the value
+// array of a request holds 30 entries, register refuses a route that declares more). Parameter
+// counts 28, 29, 30 (must be served like any other pattern) and 31 (registration must panic,
+// RoutePatternMatch answers false).
+
+var manyCounts = []int{28, 28, 28, 29, 29, 29, 30, 30, 30, 30, 30, 31}
+var manyDelims = []string{"/", "/", "/", "/", "-", "-", ".", "/a/", "-b-", "./", "/v1/", "--", "/x/y/", ".json"}
+var manyNames = []string{"p", "id", "Name", "x", "to", "Q"}
+var manyVals = []string{"a", "b", "ab", "A", "1", "v1", "abc", "aB", "B", "x", "zz", "7"}
+
+func genManyToks(r *gen.Rand, n int) []tok {
+	ts := []tok{{'L', gen.Pick(r, lits0)}}
+	allNamed := r.Chance(1, 2)
+	oneDelim := ""
+	if r.Chance(1, 3) {
+		oneDelim = gen.Pick(r, []string{"/", "-", "."})
+	}
+	for i := 0; i < n; i++ {
+		if i > 0 {
+			d := oneDelim
+			if d == "" {
+				d = gen.Pick(r, manyDelims)
+			}
+			ts = append(ts, tok{'L', d})
+		}
+		k := r.Intn(20)
+		if allNamed {
+			k = 0
+		}
+		nm := gen.Pick(r, manyNames) + fmt.Sprint(i) // distinct also when letter case is ignored
+		switch {
+		case k < 13:
+			ts = append(ts, tok{'N', nm})
+		case k < 17:
+			ts = append(ts, tok{'O', nm})
+		case k < 19:
+			ts = append(ts, tok{kind: 'S'})
+		default:
+			ts = append(ts, tok{kind: 'P'})
+		}
+	}
+	if r.Chance(1, 2) { // the last parameter ends the pattern or is followed by a literal
+		ts = append(ts, tok{'L', gen.Pick(r, manyDelims)})
+	}
+	return ts
+}
+
+// genManyVals: well-formed (clean) values most of the time – short, free of delimiters – so that the
+// completeness clause applies to a 30-value filling; one position is sometimes drawn from smallVals.
+func genManyVals(r *gen.Rand, ts []tok) []string {
+	var vals []string
+	for _, t := range ts {
+		if t.kind == 'L' {
+			continue
+		}
+		v := gen.Pick(r, manyVals)
+		if (t.kind == 'O' || t.kind == 'S') && r.Chance(1, 4) {
+			v = ""
+		}
+		vals = append(vals, v)
+	}
+	if len(vals) > 0 && r.Chance(1, 6) {
+		vals[r.Intn(len(vals))] = gen.Pick(r, smallVals)
 	}
 	return vals
 }
@@ -403,7 +477,7 @@ func main() {
 				}
 				vals := gen.UnHexList(f[3])
 				path := gen.UnHex(f[4])
-				if !okPath(path) {
+				if !okPathN(path, manyPathLimit) {
 					return
 				}
 				p.submit(job{f[0], cfg, ts, vals, path})
@@ -460,7 +534,19 @@ func main() {
 			}
 			continue
 		}
-		ts := genToks(r)
+		// every 25th pattern group (4 % of the cases, in every tier and for every seed) is a
+		// many-parameter pattern at the maxParams boundary
+		many := i%25 == 7
+		lim := 100
+		var ts []tok
+		if many {
+			np := gen.Pick(r, manyCounts)
+			ts = genManyToks(r, np)
+			lim = manyPathLimit
+			w.Count(fmt.Sprintf("pattern-many-params-%d", np))
+		} else {
+			ts = genToks(r)
+		}
 		pattern := text(ts)
 		if delimited(ts) {
 			w.Count("pattern-delimited")
@@ -469,18 +555,26 @@ func main() {
 		}
 		for j := 0; j < per && i*per+j < n; j++ {
 			cfg := rt.Cfg{CS: r.Bool(), Strict: r.Bool(), Unescape: r.Bool()}
-			vals := genVals(r, ts)
+			var vals []string
+			if many {
+				vals = genManyVals(r, ts)
+			} else {
+				vals = genVals(r, ts)
+			}
 			path, kind := variant(r, fill(ts, vals), pattern)
-			if !okPath(path) {
+			if !okPathN(path, lim) {
 				path = strings.NewReplacer("?", "", "#", "").Replace(path)
 				for strings.HasPrefix(path, "//") {
 					path = path[1:]
 				}
-				if !okPath(path) {
+				if !okPathN(path, lim) {
 					path = "/"
 				}
 			}
 			w.Count("path-" + kind)
+			if many {
+				w.Count("path-many-" + kind)
+			}
 			p.submit(job{fmt.Sprintf("s%d.%d.%d", o.Seed, i, j), cfg, ts, vals, path})
 		}
 	}
